@@ -76,6 +76,39 @@ theorem run_ran_tail (w : Wrapper) (c : List Wrapper) (h : Handler) (req : Req)
     (hr : run (w :: c) h req = .ran) : run c h req = .ran :=
   apply_ran w _ req hr
 
+/-! ## The gate decides on path, cookie class, basic class and usersExist only -/
+
+theorem optionalAuthW_decision (g : Handler) (req : Req) :
+    optionalAuthW g req =
+      (authDecision req.path req.cookie req.basic req.usersExist).getD (g req) := by
+  unfold optionalAuthW authDecision optionalAuthThird authenticated
+  by_cases h1 : req.path = pLoginHtml
+  · by_cases h2 : (req.usersExist && req.cookie == .valid) = true <;> simp [h1, h2]
+  · by_cases h3 : isPublicResource req.path = true
+    · simp [h1, h3]
+    · cases hu : req.usersExist
+      · simp [h1, h3]
+      · by_cases hr : req.path = pRoot ∨ req.path = pIndex <;>
+          cases hc : req.cookie <;> cases hb : req.basic <;> simp [h1, h3, hr]
+
+/-- Two requests that differ at most in the extra headers. -/
+def sameButHeaders (a b : Req) : Prop :=
+  a.path = b.path ∧ a.method = b.method ∧ a.cookie = b.cookie ∧ a.basic = b.basic ∧
+  a.ctype = b.ctype ∧ a.contentLength = b.contentLength ∧ a.firstRun = b.firstRun ∧
+  a.usersExist = b.usersExist
+
+theorem apply_headers (w : Wrapper) (g : Handler) (a b : Req) (hs : sameButHeaders a b)
+    (hg : g a = g b) : w.apply g a = w.apply g b := by
+  obtain ⟨h1, h2, h3, h4, h5, h6, h7, h8⟩ := hs
+  cases w with
+  | postInstall => simp only [Wrapper.apply, postInstallW, h1, h7, hg]
+  | preInstall => simp only [Wrapper.apply, preInstallW, h7, hg]
+  | optionalAuth =>
+    simp only [Wrapper.apply]
+    rw [optionalAuthW_decision, optionalAuthW_decision, h1, h3, h4, h8, hg]
+  | gzip => exact hg
+  | ensure m => simp [Wrapper.apply, ensureW, ctypeOK, h2, h5, h6, hg]
+
 /-! ## isPublicResource -/
 
 theorem loginHtml_public : isPublicResource pLoginHtml = true := by decide
